@@ -12,7 +12,12 @@
 
 namespace adept {
   namespace internal {
+#ifdef ADEPT_CXX11_FEATURES
+    std::atomic<Index> n_storage_objects_created_(0);
+    std::atomic<Index> n_storage_objects_deleted_(0);
+#else
     Index n_storage_objects_created_;
     Index n_storage_objects_deleted_;
+#endif
   }
 }
